@@ -248,7 +248,7 @@ class Fn:
             for _, b in t[2]:
                 if b not in out:
                     out.append(b)
-            if t[3] not in out:
+            if t[3] not in out and self._otherwise_feasible(bb):
                 out.append(t[3])
             return out
         if k == 'call':
@@ -260,6 +260,34 @@ class Fn:
         if k == 'yield':
             return [t[2]]
         return []
+
+    def _otherwise_feasible(self, bb):
+        """the `otherwise` edge of a switch on an enum discriminant is infeasible when the listed values are all the variants of
+        the enum (`match (a, b) { (X, Some(_)) => .., (X, None) => .., (_, _) => .. }` routes the inner otherwise to the wildcard
+        arm: a path that does not exist)"""
+        t = self.blocks[bb]['t']
+        op = t[1]
+        if op[0] not in ('c', 'm') or not isinstance(op[1], int):
+            return True
+        l = op[1]
+        d = None
+        for b in self.blocks:
+            if b['cleanup']:
+                continue
+            for st in b['s']:
+                if st[0] == '=' and st[1] == l:
+                    if d is not None:
+                        return True
+                    d = st[2]
+            if b['t'][0] == 'call' and b['t'][3] == l:
+                return True
+        if not d or d[0] != 'discr' or len(d) < 3 or not d[2]:
+            return True
+        adt = self.prog.adts.get(d[2]) if self.prog is not None else None
+        if not adt or adt.get('kind') != 'enum' or not adt.get('variants'):
+            return True
+        have = {v for v, _ in t[2]}
+        return not all(v_['discr'] in have for v_ in adt['variants'])
 
     def preds(self, bb):
         if self._pred is None:
@@ -710,6 +738,16 @@ class Program:
             self.stats['asserts'] += doc['n_asserts']
         self._closure_sites = None
         self._callers = None
+        self.inline_stats = {}
+        if os.environ.get('VERIF_NO_INLINE') != '1':
+            # transparent helpers (engine/inline.py): expand small private functions that no rule mentions at their call sites
+            import inline
+            import loops
+            import api
+            rules_dir = os.path.join(os.path.dirname(os.path.dirname(os.path.abspath(__file__))), 'rules')
+            self.inline_stats = inline.inline_program(self, rules_dir, api.shorten, strip_generics, loops.has_loops, Fn)
+            self._closure_sites = None
+            self._callers = None
 
     def activate(self):
         """make this program's closure role names the ones strip_generics applies"""
